@@ -67,27 +67,59 @@ def index_axis(ctx, k, n):
     return kk
 
 
-class SArr(PyObj):
-    """N-d array (N<=2 modelled) whose cells are given by an element function.
+class Pick:
+    """fancy index with a concrete list of positions on one axis"""
 
-    elem(idx tuple of z3 Int terms) -> Sym value."""
+    def __init__(self, items):
+        self.items = list(items)
+        self.count = len(self.items)
+
+    def at(self, i):
+        if isinstance(i, int):
+            return self.items[i]
+        r = self.items[-1]
+        for q in range(len(self.items) - 2, -1, -1):
+            r = ite(i == q, self.items[q], r)
+        return r
+
+    def position_of(self, i):
+        """(cond that i is picked, position in the list)"""
+        cond = Or(*[i == v for v in self.items])
+        pos = len(self.items) - 1
+        for q in range(len(self.items) - 2, -1, -1):
+            pos = ite(i == self.items[q], q, pos)
+        return cond, pos
+
+
+class SArr(PyObj):
+    """N-d array (N<=2 modelled).  Every cell has a real value `at(idx)` and a NaN flag `isnan(idx)`;
+    arithmetic is done on the values and propagates the flag (numpy semantics for NaN)."""
     typename = 'ndarray'
 
-    def __init__(self, name, shape, elem):
+    def __init__(self, name, shape, elem, blank=None):
         self.name, self.shape_, self.elem = name, tuple(shape), elem
-        self.writes = []        # later writes shadow earlier ones: (cond(idx)->bool Sym, value(idx)->Sym)
+        self.blank0 = blank     # idx -> Bool: cell holds NaN (None: no NaN cells)
+        self.writes = []        # later writes shadow earlier ones: (cond(idx), value(idx), nan(idx))
 
     @staticmethod
-    def fresh(name, shape, sort='real'):
+    def fresh(name, shape, sort='real', with_nan=False):
         nd = len(shape)
         rng = z3.RealSort() if sort == 'real' else z3.IntSort()
         f = z3.Function("val_" + name, *([z3.IntSort()] * nd + [rng]))
-        return SArr(name, shape, lambda idx: Sym(f(*[zint(i) for i in idx])))
+        blank = None
+        if with_nan:
+            nf = z3.Function("nan_" + name, *([z3.IntSort()] * nd + [z3.BoolSort()]))
+            blank = lambda idx: Sym(nf(*[zint(i) for i in idx]))
+        return SArr(name, shape, lambda idx: Sym(f(*[zint(i) for i in idx])), blank)
+
+    @staticmethod
+    def _norm(idx):
+        return tuple(Sym(i) if z3.is_expr(i) else i for i in idx)
 
     def at(self, idx):
-        idx = tuple(Sym(i) if z3.is_expr(i) else i for i in idx)
+        idx = SArr._norm(idx)
         v = self.elem(idx)
-        for cond, val in self.writes:
+        for cond, val, _ in self.writes:
             c = cond(idx)
             if c is True:
                 v = val(idx)
@@ -97,7 +129,49 @@ class SArr(PyObj):
                 v = ite(c, val(idx), v)
         return v
 
+    def isnan(self, idx):
+        idx = SArr._norm(idx)
+        n = self.blank0(idx) if self.blank0 is not None else False
+        for cond, _, nanf in self.writes:
+            c = cond(idx)
+            w = nanf(idx)
+            if c is True:
+                n = w
+            elif c is False:
+                continue
+            else:
+                n = Or(And(c, w), And(Not(c), n))
+        return n
+
+    def derived(self, name, shape, elem, nanf):
+        return SArr(name, shape, elem, nanf)
+
     def getattr_(self, ctx, name):
+        if name == 'reshape':
+            def reshape(c, *shape):
+                if len(shape) == 1 and isinstance(shape[0], tuple):
+                    shape = shape[0]
+                base = self.snapshot()
+                if len(self.shape_) == 1 and len(shape) == 2:
+                    tot = shape[0] * shape[1]
+                    c.oblige("safe", "reshape_size_matches.L%d" % c.cur_line, self.shape_[0] == tot)
+                    ncols = shape[1]
+                    return SArr(self.name + ".reshape", shape, lambda idx: base.at((idx[0] * ncols + idx[1],)),
+                                lambda idx: base.isnan((idx[0] * ncols + idx[1],)))
+                if len(self.shape_) == 2 and len(shape) == 2 and shape[0] == -1 and shape[1] == self.shape_[1]:
+                    return base
+                if len(self.shape_) == 2 and len(shape) == 2 and shape[0] == -1 and isinstance(self.shape_[1], int):
+                    raise Undecided("reshape((-1, %r)) of an (n, %r) array" % (shape[1], self.shape_[1]))
+                raise Undecided("reshape %r -> %r" % (self.shape_, shape))
+            return Model(reshape, 'ndarray.reshape')
+        if name in ('transpose', 'T') and len(self.shape_) == 2:
+            base = self
+
+            def mk():
+                t = SArr(self.name + ".T", (self.shape_[1], self.shape_[0]), lambda idx: base.at((idx[1], idx[0])),
+                         lambda idx: base.isnan((idx[1], idx[0])))
+                return t
+            return Model(lambda c: mk(), 'ndarray.transpose') if name == 'transpose' else mk()
         if name == 'shape':
             return self.shape_
         if name == 'ndim':
@@ -113,16 +187,13 @@ class SArr(PyObj):
             return Model(lambda c, *a, **k: self.snapshot(), 'ndarray.astype')
         if name == 'dtype':
             return Opaque('dtype')
-        if name == 'T' and len(self.shape_) == 2:
-            return SArr(self.name + ".T", (self.shape_[1], self.shape_[0]), lambda idx: self.at((idx[1], idx[0])))
-        raise Undecided("ndarray.%s not modelled" % name)
+        raise PyRaise(ExcValue('AttributeError', ('ndarray.%s' % name,)))
 
     def snapshot(self):
-        old_elem, old_w = self.elem, list(self.writes)
-        frozen = SArr(self.name + "'", self.shape_, old_elem)
-        frozen.writes = old_w
+        frozen = SArr(self.name + "'", self.shape_, self.elem, self.blank0)
+        frozen.writes = list(self.writes)
         for k_, v_ in self.__dict__.items():
-            if k_ not in ('name', 'shape_', 'elem', 'writes'):
+            if k_ not in ('name', 'shape_', 'elem', 'writes', 'blank0'):
                 setattr(frozen, k_, v_)
         return frozen
 
@@ -131,6 +202,11 @@ class SArr(PyObj):
 
     def fingerprint_(self):
         return ('ndarray', len(self.writes), id(self.elem)), []
+
+    def zip_(self, ctx, xs):
+        if all(isinstance(x, SArr) and len(x.shape_) == 1 for x in xs):
+            return ZipArr(list(xs))
+        raise Undecided("zip of arrays with other iterables")
 
     def _axes(self, ctx, key):
         if not isinstance(key, tuple):
@@ -144,30 +220,62 @@ class SArr(PyObj):
                 axes.append(slice_axis(ctx, k, n))
             elif isinstance(k, (int, Sym)) and not isinstance(k, bool):
                 axes.append(index_axis(ctx, k, n))
+            elif isinstance(k, list) and all(isinstance(v, int) for v in k):
+                for v in k:
+                    index_axis(ctx, v, n)
+                axes.append(Pick(k))
+            elif isinstance(k, SArr) and len(k.shape_) == 1:
+                axes.append(('mask', k.snapshot()))
             else:
                 raise Undecided("array index kind %s" % type(k).__name__)
         return axes
 
     def getitem_(self, ctx, key):
         axes = self._axes(ctx, key)
-        vshape = tuple(a.count for a in axes if isinstance(a, Axis))
+        if any(isinstance(a, tuple) for a in axes):
+            raise Undecided("boolean-mask selection (result length is data dependent)")
+        vshape = tuple(a.count for a in axes if isinstance(a, (Axis, Pick)))
         base = self
 
-        def elem(idx):
+        def full_index(idx):
             it = iter(idx)
             full = []
             for a in axes:
-                full.append(a.at(next(it)) if isinstance(a, Axis) else a)
-            return base.at(tuple(full))
+                full.append(a.at(next(it)) if isinstance(a, (Axis, Pick)) else a)
+            return tuple(full)
         if not vshape:
-            return elem(())
-        # a view aliases the base (later writes to the base are visible) - fine for reads
-        return SArr(self.name + "[view]", vshape, elem)
+            v = base.at(full_index(()))
+            if ctx.truth(base.isnan(full_index(()))) if base.blank0 is not None or base.writes else False:
+                from pyvc.values import NaN as _NaN
+                return _NaN
+            return v
+        # NOTE: numpy basic slices are views; reads through this object see later writes to the base as well
+        return SArr(self.name + "[view]", vshape, lambda idx: base.at(full_index(idx)),
+                    lambda idx: base.isnan(full_index(idx)))
+
+    def iter_(self, ctx):
+        n = self.shape_[0]
+        if isinstance(n, int):
+            return [self.getitem_(ctx, k) for k in range(n)]
+        raise Undecided("iteration over an array of symbolic length")
 
     def setitem_(self, ctx, key, value):
+        if isinstance(key, SArr) and len(key.shape_) == len(self.shape_):
+            # boolean mask assignment a[mask] = scalar
+            ctx.oblige("safe", "mask_shape_matches.L%d" % ctx.cur_line,
+                       And(*[a == b for a, b in zip(key.shape_, self.shape_)]))
+            m = key.snapshot()
+            isn = isinstance(value, NaNType)
+            if isinstance(value, (SArr, PyObj)):
+                raise Undecided("boolean mask assignment of an array")
+            self.writes.append((lambda idx: m.at(idx), lambda idx: (0 if isn else value), lambda idx: isn))
+            return
         axes = self._axes(ctx, key)
-        vshape = tuple(a.count for a in axes if isinstance(a, Axis))
+        vshape = tuple(a.count for a in axes if isinstance(a, (Axis, Pick)))
         if isinstance(value, SArr):
+            nmask = sum(1 for a in axes if isinstance(a, tuple))
+            if nmask:
+                raise Undecided("array assigned through a boolean mask")
             if len(value.shape_) != len(vshape):
                 raise Undecided("broadcast assignment between different ranks")
             ctx.oblige("safe", "slice_shapes_match.L%d" % ctx.cur_line,
@@ -175,34 +283,50 @@ class SArr(PyObj):
             src = value.snapshot()
         else:
             src = None
+            if isinstance(value, PyObj):
+                raise Undecided("assignment of %s into an array" % type(value).__name__)
 
         def cond(idx):
             cs = []
             for a, i in zip(axes, idx):
                 if isinstance(a, Axis):
-                    # i = start + step*j for some 0 <= j < count
                     if isinstance(a.step, int) and a.step == 1:
                         cs.append(And(i >= a.start, i < a.start + a.count))
                     else:
                         cs.append(And(i >= a.start, (i - a.start) % a.step == 0,
                                       (i - a.start) // a.step < a.count))
+                elif isinstance(a, Pick):
+                    cs.append(a.position_of(i)[0])
+                elif isinstance(a, tuple):
+                    cs.append(a[1].at((i,)))
                 else:
                     cs.append(i == a)
             return And(*cs)
 
-        def val(idx):
-            if src is None:
-                return value
+        def src_index(idx):
             vi = []
             for a, i in zip(axes, idx):
                 if isinstance(a, Axis):
                     vi.append((i - a.start) // a.step if not (isinstance(a.step, int) and a.step == 1) else i - a.start)
-            return src.at(tuple(vi))
-        self.writes.append((cond, val))
+                elif isinstance(a, Pick):
+                    vi.append(a.position_of(i)[1])
+            return tuple(vi)
+        isn = isinstance(value, NaNType)
+
+        def val(idx):
+            if src is None:
+                return 0 if isn else value
+            return src.at(src_index(idx))
+
+        def nanf(idx):
+            if src is None:
+                return isn
+            return src.isnan(src_index(idx))
+        self.writes.append((cond, val, nanf))
 
     def map_(self, ctx, f):
         base = self.snapshot()
-        return SArr(uid("map"), self.shape_, lambda idx: f(base.at(idx)))
+        return SArr(uid("map"), self.shape_, lambda idx: f(base.at(idx)), lambda idx: base.isnan(idx))
 
     def binop_(self, ctx, op, other, swapped):
         import operator
@@ -214,11 +338,15 @@ class SArr(PyObj):
         name = op[1:] if inplace else op
         if name == 'neg':
             b = self.snapshot()
-            return SArr(uid("neg"), self.shape_, lambda idx: -b.at(idx))
+            return SArr(uid("neg"), self.shape_, lambda idx: -b.at(idx), lambda idx: b.isnan(idx))
+        if name == 'invert':
+            b = self.snapshot()
+            return SArr(uid("not"), self.shape_, lambda idx: Not(b.at(idx)))
         if name not in ops:
             return NotImplemented
         f = ops[name]
         a = self.snapshot()
+        cmpop = name[0].isupper()
         if isinstance(other, SArr):
             if len(other.shape_) != len(self.shape_):
                 raise Undecided("broadcast between different ranks")
@@ -226,15 +354,55 @@ class SArr(PyObj):
                        And(*[x == y for x, y in zip(self.shape_, other.shape_)]))
             o = other.snapshot()
             g = (lambda idx: f(o.at(idx), a.at(idx))) if swapped else (lambda idx: f(a.at(idx), o.at(idx)))
+            nf = lambda idx: Or(a.isnan(idx), o.isnan(idx))
         elif isinstance(other, (int, float, Sym)) or hasattr(other, 'numerator'):
             g = (lambda idx: f(other, a.at(idx))) if swapped else (lambda idx: f(a.at(idx), other))
+            nf = lambda idx: a.isnan(idx)
+        elif isinstance(other, NaNType):
+            g = lambda idx: 0
+            nf = lambda idx: True
         else:
             return NotImplemented
-        res = SArr(uid(name), self.shape_, g)
+        if cmpop:
+            # comparisons with NaN are False (True for !=)
+            g0 = g
+            g = (lambda idx: Or(g0(idx), nf(idx))) if name == 'NotEq' else (lambda idx: And(g0(idx), Not(nf(idx))))
+            res = SArr(uid(name), self.shape_, g)
+        else:
+            res = SArr(uid(name), self.shape_, g, nf)
         if inplace:
-            self.elem, self.writes = res.elem, []
+            self.elem, self.blank0, self.writes = res.elem, res.blank0, []
             return self
         return res
+
+
+class ZipArr(PyObj):
+    """zip(a, b, ...) of 1-d arrays of equal symbolic length; list(...) keeps it; np.array(...) makes an (n, k) array"""
+
+    def __init__(self, arrs):
+        self.arrs = arrs
+
+    def tolist_(self, ctx):
+        return self
+
+    def to_array(self, ctx):
+        arrs = [a.snapshot() for a in self.arrs]
+        n = arrs[0].shape_[0]
+        for a in arrs[1:]:
+            ctx.assume(a.shape_[0] == n) if False else None
+        k = len(arrs)
+
+        def pick(fn):
+            def elem(idx):
+                c = idx[1]
+                if isinstance(c, int):
+                    return fn(arrs[c], (idx[0],))
+                r = fn(arrs[k - 1], (idx[0],))
+                for q in range(k - 2, -1, -1):
+                    r = ite(c == q, fn(arrs[q], (idx[0],)), r) if not isinstance(r, bool) or True else r
+                return r
+            return elem
+        return SArr(uid("zipped"), (n, k), pick(lambda a, i: a.at(i)), pick(lambda a, i: a.isnan(i)))
 
 
 def np_arange(ctx, *a):
@@ -281,9 +449,63 @@ def np_zeros(ctx, shape, *a, **k):
 
 
 def np_array(ctx, x, *a, **k):
+    from pyvc.engine import LazyList
     if isinstance(x, SArr):
         return x.snapshot()
+    if isinstance(x, ZipArr):
+        return x.to_array(ctx)
+    if isinstance(x, list) and x and all(isinstance(r, tuple) and all(isinstance(v, (int, float, Sym, NaNType)) for v in r) for r in x):
+        rows = [tuple(r) for r in x]
+        w = len(rows[0])
+
+        def sel(fn):
+            def elem(idx):
+                i, c = idx
+                def row(rw):
+                    if isinstance(c, int):
+                        return fn(rw[c])
+                    r = fn(rw[w - 1])
+                    for q in range(w - 2, -1, -1):
+                        r = ite(c == q, fn(rw[q]), r)
+                    return r
+                if isinstance(i, int):
+                    return row(rows[i])
+                r = row(rows[-1])
+                for q in range(len(rows) - 2, -1, -1):
+                    r = ite(i == q, row(rows[q]), r)
+                return r
+            return elem
+        return SArr(uid("rows"), (len(rows), w), sel(lambda v: 0 if isinstance(v, NaNType) else v),
+                    sel(lambda v: isinstance(v, NaNType)))
+    if isinstance(x, LazyList):
+        n = x.len_(ctx)
+        probe = x.at(Sym(z3.Int('probe_k')))
+        if isinstance(probe, tuple):
+            w = len(probe)
+
+            def elem(idx):
+                t = x.at(idx[0])
+                c = idx[1]
+                if isinstance(c, int):
+                    return t[c]
+                r = t[w - 1]
+                for q in range(w - 2, -1, -1):
+                    r = ite(c == q, t[q], r)
+                return r
+            return SArr(uid("listcomp"), (n, w), elem)
+        return SArr(uid("listcomp"), (n,), lambda idx: x.at(idx[0]))
     return x
+
+
+def np_bitwise_not(ctx, x):
+    if isinstance(x, SArr):
+        b = x.snapshot()
+        return SArr(uid("not"), x.shape_, lambda idx: Not(b.at(idx)))
+    if isinstance(x, Sym):
+        return Not(x)
+    if isinstance(x, bool):
+        return not x
+    raise Undecided("bitwise_not of %s" % type(x).__name__)
 
 
 def np_squeeze(ctx, x, *a, **k):
